@@ -5,6 +5,10 @@ Require Import Verif.Lib.Wire Verif.Lib.Text Verif.Lib.Percent Verif.Lib.Utf8 Ve
 Require Import Verif.Gen.Facts_C09 Verif.Model.C09.
 Ltac Zify.zify_post_hook ::= Z.div_mod_to_equations.
 Local Arguments cmp_eval : simpl never.
+Local Arguments Z.mul : simpl never.
+Local Arguments Z.sub : simpl never.
+Local Arguments Z.add : simpl never.
+Local Arguments now2 : simpl never.
 
 (* ------------------------------------------------------------------ UTF-8 is injective on scalar values *)
 Lemma encode_inj a b :
@@ -103,13 +107,13 @@ Theorem accept_fields c r ck0 ts u toks ud :
     /\ toks = split_on comma tk
     /\ encode d = encode (calculate_digest H (hashalg c) ip ts (secret c) uid tk ud)
     /\ decode_userid uni (split_on pipe ud) (VStr uid) = Some u
-    /\ timed_out c ts (now r) = false.
+    /\ timed_out c ts (now2 r) = false.
 Proof.
   intros Hc. unfold C09.identify_pre. rewrite Hc.
   destruct (eff_ip c r) as [ip|]; [|discriminate].
   destruct (parse_ticket (secret c) ck0 ip (hashalg c)) as [ts' u' toks' ud'|] eqn:P; [|discriminate].
   destruct (parse_ok_digest _ _ _ _ _ _ _ _ P) as (d & tk & F & T & E).
-  destruct (timed_out c ts' (now r)) eqn:TO; [discriminate|].
+  destruct (timed_out c ts' (now2 r)) eqn:TO; [discriminate|].
   destruct (decode_userid uni (split_on pipe ud') (VStr u')) as [u2|] eqn:D; [|discriminate].
   intros X; inversion X; subst. exists ip, d, u', tk. auto 10.
 Qed.
@@ -145,7 +149,7 @@ Lemma identify_result c r st :
 Proof.
   unfold C09.identify. destruct (identify_pre c r) as [|ts u tk ud|] eqn:P; auto.
   destruct (reissue_time c) as [rt|]; auto.
-  destruct (negb (reissued st) && cmp_eval reissue_cmp (now r - ts) rt); auto.
+  destruct (negb (reissued st) && cmp_eval reissue_cmp (now2 r - 2 * ts) (2 * rt)); auto.
   right. exists ts, u, tk, ud. split; auto.
   destruct (remember c r u (max_age c) (filter nonempty tk)); simpl; auto.
 Qed.
@@ -187,7 +191,7 @@ Proof.
   destruct (identify_pre c r) as [|ts u tk ud|] eqn:P; simpl.
   - auto.
   - destruct (reissue_time c) as [rt|] eqn:RT; simpl; [|auto].
-    rewrite reissue_cmp_gt. destruct (Z.ltb rt (now r - ts)) eqn:CM.
+    rewrite reissue_cmp_gt. destruct (Z.ltb (2 * rt) (now2 r - 2 * ts)) eqn:CM.
     + destruct (remember c r u (max_age c) (filter nonempty tk)) as [hs|] eqn:RM.
       * destruct Hs as [Hi Hc]. destruct (reissued st) eqn:RS; simpl.
         -- subst i. auto.
@@ -242,12 +246,12 @@ Qed.
 Theorem reissued_ticket_is_fresh c r hs :
   spec_reissue_ticket c r = Some hs ->
   exists ts u tk ud rt, identify_pre c r = ISome ts u tk ud /\ reissue_time c = Some rt
-    /\ cmp_eval reissue_cmp (now r - ts) rt = true
+    /\ cmp_eval reissue_cmp (now2 r - 2 * ts) (2 * rt) = true
     /\ remember c r u (max_age c) (filter nonempty tk) = Some hs.
 Proof.
   unfold C09.spec_reissue_ticket. destruct (identify_pre c r) as [|ts u tk ud|]; try discriminate.
   destruct (reissue_time c) as [rt|]; try discriminate.
-  destruct (Z.ltb rt (now r - ts)) eqn:E; try discriminate.
+  destruct (Z.ltb (2 * rt) (now2 r - 2 * ts)) eqn:E; try discriminate.
   intros R. exists ts, u, tk, ud, rt. rewrite reissue_cmp_gt. auto.
 Qed.
 
@@ -293,7 +297,8 @@ Definition ex_H (a : text) (x : list N) : text :=      (* a toy "hash": 4 hex di
   hex_pad 4 (fold_left (fun acc b => (acc * 31 + b + 7) mod 65536)%N x 0%N).
 Definition ex_cfg : cfg :=
   mkCfg [115; 101; 99]%N [116; 107]%N false false (Some 10%Z) (Some 3%Z) None false [47]%N true false None [109]%N (Some [76]%N).
-Definition ex_req (ck0 : option text) (nw : Z) : req := mkReq ck0 (IP4 [127; 0; 0; 1]%N) [104]%N nw.
+Definition ex_req (ck0 : option text) (nw : Z) : req := mkReq ck0 (IP4 [127; 0; 0; 1]%N) [104]%N nw false.
+Definition ex_req_half (ck0 : option text) (nw : Z) : req := mkReq ck0 (IP4 [127; 0; 0; 1]%N) [104]%N nw true.
 Definition ex_cookie : text :=
   match remember ex_H ex_cfg (ex_req None 1000) (VStr [98; 111; 98]%N) None [[97]%N] with
   | Some [k] => match ck_value k with Some v => v | None => [] end
@@ -324,3 +329,14 @@ Definition ex_cookie_late : text :=
 Example hex8_overflow_refuted :
   identify_pre ex_H (fun _ => 2%nat) (fun _ => 63%N) ex_cfg (ex_req (Some ex_cookie_late) 4294967296) = INone.
 Proof. vm_compute. reflexivity. Qed.
+
+(* fractional clocks: at issue + timeout + 0.5 the code's test (timestamp + timeout) < now already rejects,
+   at issue + timeout - 0.5 it accepts; a ticket whose age is reissue_time + 0.5 is reissued *)
+Example half_second_boundary :
+  identify_pre ex_H (fun _ => 2%nat) (fun _ => 63%N) ex_cfg (ex_req_half (Some ex_cookie) 1010) = INone
+  /\ identify_pre ex_H (fun _ => 2%nat) (fun _ => 63%N) ex_cfg (ex_req_half (Some ex_cookie) 1009) <> INone
+  /\ length (response_cookies (fst (run_ops ex_H (fun _ => 2%nat) (fun _ => 63%N) ex_cfg
+                                   (ex_req_half (Some ex_cookie) 1003) st0 [OIdentify]))) = 1%nat
+  /\ response_cookies (fst (run_ops ex_H (fun _ => 2%nat) (fun _ => 63%N) ex_cfg
+                                   (ex_req (Some ex_cookie) 1003) st0 [OIdentify])) = [].
+Proof. vm_compute. repeat split; discriminate. Qed.
